@@ -218,11 +218,28 @@ def oracle(rc, st):
             PP.stdin, PP.stdout, sys.argv = old
         got = out.getvalue()
         if got != "".join(want):
-            idx = _progress(got, want)
-            raise Violation(("cli_output", {"line": classes[idx][0] if idx < len(classes) else "?"}),
-                            "eliot-prettyprint %s: output differs at input line %d (%r): got %r" % (
-                                " ".join(flags), idx, kept[idx][:100] if idx < len(kept) else None,
-                                got[sum(len(w) for w in want[:idx]):][:200]))
+            # not the historical wording: the statement fixes the rendering of Eliot messages, and that every
+            # other line is reported, not what a report says.  Renderings are anchors, in input order; between
+            # two anchors there is text exactly when foreign lines came in between.
+            rc.probe("cli_reports_worded_differently")
+            p_, foreign, bad = 0, 0, None
+            for idx, (ln, (c, v)) in enumerate(zip(kept, classes)):
+                if c in ("not_json", "not_object", "not_eliot"):
+                    foreign += 1
+                    continue
+                w = want[idx]
+                at = got.find(w, p_)
+                if at < 0 or (foreign == 0 and at != p_) or (foreign > 0 and not got[p_:at].strip()):
+                    bad = idx if at < 0 or foreign == 0 else idx - 1
+                    break
+                p_, foreign = at + len(w), 0
+            if bad is None and ((foreign == 0 and got[p_:].strip()) or (foreign > 0 and not got[p_:].strip())):
+                bad = len(kept) - 1
+            if bad is not None:
+                idx = max(0, bad)
+                raise Violation(("cli_output", {"line": classes[idx][0] if idx < len(classes) else "?"}),
+                                "eliot-prettyprint %s: output differs around input line %d (%r): got %r" % (
+                                    " ".join(flags), idx, kept[idx][:100] if idx < len(kept) else None, got[p_:][:200]))
     # ---- eliot.filter on the JSON lines
     jlines = [ln for ln, (c, v) in zip(kept, classes) if c != "not_json"]
     out = io.StringIO()
